@@ -7,19 +7,26 @@ import (
 
 // CheckAlreadyConnected checks if a address and peer id is already connected.
 func CheckAlreadyConnected(t *Transport, addr string, peerID peer.ID) (bool, error) {
+	lnk, err := LookupAlreadyConnected(t, addr, peerID)
+	return lnk != nil, err
+}
+
+// LookupAlreadyConnected returns the link already established with the address, if any.
+// Returns an error if the address is connected with a different peer id.
+func LookupAlreadyConnected(t *Transport, addr string, peerID peer.ID) (*Link, error) {
 	lnk, ok := t.LookupLinkWithAddr(addr)
 	if !ok {
-		return false, nil
+		return nil, nil
 	}
 	lnkPeer := lnk.GetRemotePeer().String()
 	desiredPeer := peerID.String()
 	if lnkPeer != desiredPeer {
-		return false, errors.Errorf(
+		return nil, errors.Errorf(
 			"already connected to %s with different peer id: %s != requested %s",
 			addr,
 			lnkPeer,
 			desiredPeer,
 		)
 	}
-	return true, nil
+	return lnk, nil
 }
